@@ -111,6 +111,9 @@ impl Stats {
         if self.violation.is_none() {
             self.violation = o.violation;
         }
+        for (k, v) in o.extra {
+            self.extra.entry(k).or_insert(v);
+        }
         for (k, v) in o.maxima {
             let e = self.maxima.entry(k).or_insert(f64::NEG_INFINITY);
             if v > *e {
@@ -151,7 +154,12 @@ impl Stats {
             }
             Outcome::Violation { key, msg } => {
                 if !key.is_empty() && known.iter().any(|k| &k.key == key) {
-                    *self.excluded.entry(key.clone()).or_default() += 1;
+                    let c = self.excluded.entry(key.clone()).or_default();
+                    *c += 1;
+                    if *c == 1 {
+                        // keep one reproduction of the listed finding (run-time artefact, not the committed list)
+                        self.extra.insert(format!("known_finding_example_{}", key), json!({"case": serde_json::to_value(case).unwrap(), "message": msg}));
+                    }
                     false
                 } else {
                     if self.violation.is_none() {
@@ -398,6 +406,53 @@ pub fn finish(ctx: &Ctx, rep: Report, known: &[Known], wall_s: f64) -> i32 {
         code = 2;
     }
     code
+}
+
+/// Committed regression replays (/verif/regress/<id>-*.json): shrunk cases of repaired defects and of
+/// listed findings; evaluated first by every run.  Returns (stats, Some((path, key, msg)) on a violation).
+pub fn run_regress<C: DeserializeOwned + Serialize>(
+    ctx: &Ctx,
+    id: &str,
+    check: &(dyn Fn(&C) -> Outcome + Sync),
+    known: &[Known],
+) -> (Stats, Option<(String, String, String)>) {
+    let mut st = Stats::default();
+    let dir = format!("{}/regress", ctx.verif_dir);
+    let mut files: Vec<String> = match std::fs::read_dir(&dir) {
+        Ok(rd) => rd.filter_map(|e| e.ok()).map(|e| e.file_name().to_string_lossy().to_string()).filter(|n| n.starts_with(&format!("{}-", id)) && n.ends_with(".json")).collect(),
+        Err(_) => vec![],
+    };
+    files.sort();
+    let mut n = 0u64;
+    for f in files {
+        let path = format!("{}/{}", dir, f);
+        let txt = match std::fs::read_to_string(&path) {
+            Ok(t) => t,
+            Err(_) => continue,
+        };
+        let v: Value = match serde_json::from_str(&txt) {
+            Ok(v) => v,
+            Err(_) => continue,
+        };
+        let cv = if v.get("case").is_some() { v["case"].clone() } else { v };
+        let case: C = match serde_json::from_value(cv) {
+            Ok(c) => c,
+            Err(e) => {
+                eprintln!("regression replay {} does not deserialise: {}", path, e);
+                continue;
+            }
+        };
+        n += 1;
+        let out = eval(check, &case);
+        if st.record(&case, &out, known) {
+            if let Outcome::Violation { key, msg } = out {
+                st.extra.insert("regression_replays".into(), json!(n));
+                return (st, Some((path, key, msg)));
+            }
+        }
+    }
+    st.extra.insert("regression_replays".into(), json!(n));
+    (st, None)
 }
 
 /// Replay one saved case through the oracle (no generator library involved).
